@@ -34,7 +34,7 @@ class VarIndex:
         out = []
         for vn in vnames:
             for (idx, nd, f, ty) in self.rows.get((asset, vn, ts), []):
-                if nd == node and ty == 'd':
+                if nd == node and ty in ('d', 'i'):     # ('i': rows at the internal nodes of a structured asset)
                     out.append((vn, idx, f))
         return out
 
